@@ -306,6 +306,15 @@ def r6_top_level(chk: Check):
     tg = [n for n in g.live if n.kind == "stmt" and isinstance(n.ast, ast.Assign) and src(n.ast.targets[0]) == "task.__tags__" and src(n.ast.value) == "params['tags']"]
     ex = [n for n, c in g.call_nodes(lambda c: src(c) == "task.execute()")]
     chk.require(len(tg) == 1 and len(ex) == 1 and g.dominates(tg[0], ex[0]), chk.fkey(r, "tags before execute"), "the task must receive the configured tags before its body starts", chk.loc(r.module, r.node))
+    # the parameter file of a job is (re)written whenever its script is prepared: the job folder is keyed by the identifier, which
+    # ignores Meta / Path parameters and tags, so an existing file is not necessarily the graph being submitted now
+    cp = tree.func("commandline", "CommandParameters.output")
+    gc = CFG(cp.node)
+    wr = gc.call_nodes(lambda c: tail(c) == "outputjson")
+    chk.require(len(wr) == 1, chk.fkey(cp, "writes params.json"), "CommandParameters.output must write the parameter file", chk.loc(cp.module, cp.node))
+    for n, c in wr:
+        conds = [src(t.ast) for t in gc.live if t.kind == "test"]
+        chk.require(gc.on_every_path([n]), chk.fkey(cp, "params.json always rewritten"), f"the parameter file is not written on every path (conditions {conds}): a job re-run after changing only ignored parameters or tags would load the old values", chk.loc(cp.module, c))
     # outputjson tags come from the whole graph
     chk.require("self.tags()" in src(oj.node), chk.fkey(oj, "tags of the graph"), "the parameter file must record the tags of the whole graph (self.tags())", chk.loc(oj.module, oj.node))
 
